@@ -158,3 +158,7 @@ def run(cx, out):
     for c in cfgs:
         unit(out, F[c])
         c07.check_sinks(out, F[c])
+    # likewise the std-only input (IoReader) must behave like every other Input implementation (C08: forwarding, overrides
+    # equivalent to the defaults, a read that cannot be filled completely fails)
+    from . import shared
+    shared.premises(cx, out, {'c08': {'R08.1', 'R08.2', 'R08.4'}})
